@@ -600,7 +600,9 @@ def run(ck: Check):
                       "followed by a replacement instance; random multi-fault plans); non-trivial = at least one "
                       "transactional batch was appended; distinct by the projected model trace")
     t0 = time.time()
+    import c16_dispatch
     ok_t, _ = ck.regenerate(["TxnTable"])
+    c16_dispatch.regenerate(ck)      # the transactional handlers' dispatch chains (shared with C16)
     ok_p, _ = ck.coq_props("C07")
     ck.log(f"translation ok={ok_t}, proofs ok={ok_p} ({time.time() - t0:.0f}s)")
     wscs, wres = check_witnesses(ck)
